@@ -349,7 +349,10 @@ func c13Run(c *mc.Ctx, tc tableCase, pointer int) {
 		}
 		if i < len(tc.Hdrs) {
 			h := tc.Hdrs[i]
-			sh := s.Syntax.Header
+			var sh *astits.PSISectionSyntaxHeader
+			if s.Syntax != nil {
+				sh = s.Syntax.Header
+			}
 			if sh == nil || sh.TableIDExtension != h.Ext || sh.VersionNumber != h.Version || sh.CurrentNextIndicator != h.CNI || sh.SectionNumber != h.SN || sh.LastSectionNumber != h.LSN {
 				bad = fmt.Sprintf("syntax header %+v, want %+v", sh, h)
 			}
